@@ -219,8 +219,8 @@ def harness(ctx):
     b, cfgs, sc = t1()
     b0, d0 = locking_build(0)
     b1, d1 = locking_build(1)
-    h0 = C.build_harness("lockseq", b0, extra=d0)
-    h1 = C.build_harness("lockseq", b1, extra=d1)
+    h0 = C.build_harness("lockseq", b0, extra=d0, wraps=["epoll_wait"])
+    h1 = C.build_harness("lockseq", b1, extra=d1, wraps=["epoll_wait"])
     if (b0, b1) != (b["cmake"][0], b["autotools"][0]) and not _state.get("noted"):
         _state["noted"] = 1
         ctx.note("lock harness built against forced-on configurations: rc=0 %s, rc=1 %s" % (os.path.basename(b0), os.path.basename(b1)))
@@ -284,6 +284,7 @@ def generate(ctx, escalate=False):
     out += ["lkcb %s %s %s %d" % (c["file"], c["func"], c["callee"], c["k"]) for c in sc["callbacks"]]
     out += ["lkwin %s %s" % (f["file"], f["name"]) for f in sc["lockfns"]]
     out.append("lkctxfail 0")
+    out += ["lkeintr 0", "lkeintr 1"]
     nseq = 300000 if ctx.thorough() else 20000
     nsch = 60000 if ctx.thorough() else 5000
     if escalate:
@@ -340,10 +341,16 @@ def judge(ctx, c):
             return ("spec", "lock balance of %s() in %s is broken on some path (%s): %s" % (
                 w[2] if len(w) > 2 else "?", w[1] if len(w) > 1 else "?", ",".join(badk), "; ".join(window_problems(w[1:3])) or i))
         return None if i == m else ("tie", "scan fact differs from Generated.lockWindows: %s vs %s" % (i, m))
+    if op == "lkeintr":
+        if i != "ok":
+            return ("spec" if i.startswith("unserialised") else "tie",
+                    "a signal interrupted the I/O thread's wait inside coap_io_process() while another thread held the library "
+                    "lock in an event callback: the I/O thread must re-take the lock before it goes on; observed: " + i + static_hint())
+        return None if i == m else ("tie", "differs from M: %s vs %s" % (i, m))
     if op == "lkctxfail":
         if i != "ret=null held=0":
             return ("spec", "coap_new_context() was made to fail (listen address cannot be bound): it must return NULL with the "
-                            "global lock released, observed: " + i)
+                            "global lock released, observed: " + i + static_hint())
         return None if i == m else ("tie", "differs from M: %s vs %s" % (i, m))
     if op == "lksmoke":
         return None if i == "ok" else ("spec", "TSan multi-thread smoke run (2..8 application threads + I/O thread, callbacks re-entering the API): " + i[:300])
@@ -397,6 +404,16 @@ def window_problems(key):
     return []
 
 
+def static_hint():
+    """what the static lock-balance scan says about the tree (names the function and the path)"""
+    try:
+        sc = t1()[2]
+    except Exception:
+        return ""
+    pr = ["%s %s(): %s" % (f["file"], f["name"], p) for f in sc["lockfns"] for p in f["problems"]]
+    return ("; static scan: " + "; ".join(pr[:6])) if pr else ""
+
+
 def known(ctx, c):
     w = c["input"].split()
     if w[0] == "lksmoke" and (c["impl"] or "").startswith("tsan:"):
@@ -411,7 +428,7 @@ def known(ctx, c):
 
 def nontrivial(c):
     w = c["input"].split()
-    if w[0] in ("lkcfg", "lkapi", "lkcb", "lkwin", "lkctxfail"):
+    if w[0] in ("lkcfg", "lkapi", "lkcb", "lkwin", "lkctxfail", "lkeintr"):
         return True
     if w[0] in ("lkseq", "lksched"):
         return "L" in c["input"] and "+" in c["input"]
